@@ -470,6 +470,12 @@ class SchedSuite(SyncSuite):
             if wide and rng.random() < 0.7:
                 # a slow content-hasher callback for the first file: its request reaches the sender after ~300 later ones
                 opt["hold_hasher"] = 300
+            elif not wide and rng.random() < 0.2 and sum(1 for e in tree if e["t"] == "file") >= 3:
+                opt["hold_hasher"] = 2
+            if "hold_hasher" in opt and rng.random() < 0.6 and not any(bytes.fromhex(e["p"]) < b"!0" for e in tree):
+                # ... and that file is the FIRST entry of the walk (id 0)
+                tree.insert(0, {"p": hx(b"!0"), "t": "file", "size": rng.choice([1, 40000]), "uid": 0, "gid": 0, "mt": gen.MTIMES[0], "mode": 0o644})
+                dst = [e for e in dst if e["p"] != hx(b"!0")]
             ops.append({"op": "sync", "src": {"kind": "mem", "tree": tree}, "dst": dst, "opt": opt, "schedules": scheds})
         return ops
 
